@@ -333,6 +333,48 @@ def validate_block_start_spec(chk: Check, n: int) -> None:
         chk.broken.append(f"specification Model/BlockStart.v is incomplete against the parser: {nb} words")
 
 
+def tight_flags(text: str) -> list:
+    """tight flags of all lists, document order"""
+    acc = []
+
+    def walk(t):
+        if t["t"] == "List":
+            acc.append(bool(t.get("tight")))
+        for k in t.get("c", []):
+            walk(k)
+    walk(mdast.doc_tree(text))
+    return acc
+
+
+def heading_in_tight_item(text: str) -> bool:
+    def walk(t):
+        if t["t"] == "List" and t.get("tight"):
+            for it in t.get("c", []):
+                if any(k["t"] in ("Heading", "SetextHeading") for k in it.get("c", [])):
+                    return True
+        return any(walk(k) for k in t.get("c", []))
+    try:
+        return walk(mdast.doc_tree(text))
+    except Exception:
+        return False
+
+
+def structure_preserved(doc: str, width: int, semantic: bool) -> bool:
+    """C01 on one input (used as a precondition by the document-level oracles of other properties: a case on which the
+    plain formatting pass already changes the structure belongs to C01 and its listed findings, not to them)"""
+    from textwrap import dedent
+    from flowmark.formats.frontmatter import split_frontmatter
+    try:
+        fm, content = split_frontmatter(doc)
+        pin = dedent(content).strip() + "\n"
+        out = docports.fmt(doc, dict(width=width, semantic=semantic, cleanups=False, smartquotes=False, ellipses=False, list_spacing="preserve"))
+        if fm and out.startswith(fm):
+            out = out[len(fm):]
+        return reparse_check(pin, out) is None and html_line_start_check(pin, out) is None
+    except Exception:
+        return False
+
+
 def run(chk: Check) -> None:
     tier = chk.tier
     chk.cov["trusted_base"] = TRUSTED_BASE_COMMON + [
